@@ -2,7 +2,7 @@
 # seed_suite.sh <prop> <variant>: run the repository's own tests with the seeded change applied (scratch worktree), under the machine lock.
 P=$1; V=$2
 SRC=${SEED_ROOT:-/tmp/mut/out}/$P/$V; WT=/tmp/seedsuite-$P$V; LOG=/tmp/seedeval/$P$V; mkdir -p $LOG
-export GOFLAGS=-mod=mod GOPROXY=off
+export GOFLAGS=-mod=mod GOPROXY=off; mkdir -p /tmp/mut
 git -C /repo worktree remove --force $WT >/dev/null 2>&1
 git -C /repo worktree add -q --detach $WT HEAD || exit 2
 cd $WT && git apply $SRC/patch.diff || { echo "$P$V: patch does not apply"; exit 3; }
